@@ -3,6 +3,10 @@ macro_rules! registry {
     ($action:ident, $id:expr, $ctx:expr, $path:expr) => {
         match $id {
             "C01" => dispatch!($action, props::c01::C01, $ctx, $path),
+            "C08" => dispatch!($action, props::c08::C08, $ctx, $path),
+            "C09" => dispatch!($action, props::c09::C09, $ctx, $path),
+            "C10" => dispatch!($action, props::c10::C10, $ctx, $path),
+            "C11" => dispatch!($action, props::c11::C11, $ctx, $path),
             _ => {
                 eprintln!("unknown property {}", $id);
                 2
